@@ -8,7 +8,7 @@
    `_partial` = extra hypothesis excluding exactly a recorded finding; `_refuted` = the full statement fails,
    with a witness that the harness replays on the implementation.  The model follows /repo after the fix: commits
    eb213ea (Location), a836d08 (from_json skips unknown keys first), 9b14727 (PathInfo/ERO nothing set => ''),
-   9153c3e (MaintenanceInfo.from_json ignores unknown entry fields). *)
+   9153c3e (MaintenanceInfo.from_json ignores unknown entry fields), 450b7bb (Gateway.from_json: no labels => absent). *)
 From Coq Require Import String List NArith ZArith Bool Permutation.
 From FIM Require Import Base.Str Base.Json Base.JsonRT Gen.CodecGen Model.CodecField Model.CodecMisc Model.CodecWf
      Model.CodecChk Proofs.CodecAssoc Proofs.CodecTables Proofs.CodecFieldRT Proofs.CodecMiscRT Proofs.CodecGateway.
@@ -142,9 +142,23 @@ Proof. exact gw_make_idempotent. Qed.
 Print Assumptions C03_gateway_constructor_idempotent.
 
 Theorem C03_gateway_roundtrip : forall V g, wf_obj V cls_Labels g = true -> nothing_kept cls_Labels g = false ->
-  gw_make V (Some g) = Ok (Some g) -> gw_from_json V (gw_to_json (Some g)) = Ok (Some g).
+  gw_make V (Some g) = Ok (Some g) -> gw_from_json V (gw_to_json (Some g)) = Ok (Some (Some g)).
 Proof. exact (fun V g => gw_roundtrip V g (classes_ok_labels V)). Qed.
 Print Assumptions C03_gateway_roundtrip.
+
+(* nothing recorded reads back as ABSENT (450b7bb), never as an empty Gateway object *)
+Theorem C03_gateway_nothing_set_is_absent : forall V,
+  gw_to_json None = None /\ gw_from_json V None = Ok None /\ gw_from_json V (Some []) = Ok None.
+Proof. exact gw_none_roundtrip. Qed.
+Print Assumptions C03_gateway_nothing_set_is_absent.
+
+Theorem C03_gateway_absent_labels_absent_gateway : forall V t, from_json V cls_Labels t = Ok None -> gw_from_json V t = Ok None.
+Proof. exact gw_absent_labels_absent_gateway. Qed.
+Print Assumptions C03_gateway_absent_labels_absent_gateway.
+
+Theorem C03_gateway_decoded_has_labels : forall V t g, gw_from_json V t = Ok (Some g) -> g <> None.
+Proof. exact gw_decoded_has_labels. Qed.
+Print Assumptions C03_gateway_decoded_has_labels.
 
 (* ---------------------------------------------------------------- PathInfo / ERO *)
 (* pinfo_wf: everything the constructor and set() build, set() called or not; nothing set => '' => absent *)
